@@ -73,6 +73,13 @@ func VerifC14Laws() {
 	rt.Assert(ddptypes.Equal(d1, d1), "a definition equals itself")
 	rt.Assert(!ddptypes.Equal(ddptypes.ListType{ElementType: d1}, ddptypes.ListType{ElementType: a}), "a list of a definition is not a list of its base")
 	rt.Assert(ddptypes.Equal(&ddptypes.TypeAlias{Name: "AD", Underlying: d1}, d1), "an alias of a definition is that definition")
+	// two Kombinationen of different modules with the same name and the same fields
+	s1, s2 := p.structs[0], p.structs[1]
+	rt.Assert(!ddptypes.Equal(s1, s2), "same-named Kombinationen of different modules are different types")
+	rt.Assert(!ddptypes.Equal(ddptypes.ListType{ElementType: s1}, ddptypes.ListType{ElementType: s2}), "lists of same-named Kombinationen of different modules are different types")
+	rt.Assert(!ddptypes.Equal(&ddptypes.TypeAlias{Name: "AS", Underlying: s1, GramGender: ddptypes.MASKULIN}, s2), "an alias of a Kombination is not the same-named Kombination of another module")
+	i12, a12 := vAccepts(s1, s2)
+	rt.Assert(rt.And(!i12, !a12), "a value of a Kombination is not accepted where the same-named Kombination of another module is required")
 }
 
 // VerifC14Deep: the same laws on pairs of depth <= 2.
